@@ -199,6 +199,37 @@ fn c15(r: &mut R) {
     }
 }
 
+/// a CRAFTED transport blob: a sender encrypts the two 16-byte halves of a 32-byte string that is NOT a canonical
+/// scalar (l, l+1, 2l, 2^255, 2^256-1): decrypt_exp must refuse it (only canonical exponents are ever accepted),
+/// never reduce it silently; canonical values (l-1, 0) round-trip
+fn crafted_transport(r: &mut R, sk: &X) {
+    let ctx = r.ctx.clone();
+    let sk = sk.clone();
+
+            let key2 = PrivateKey::from(&sk, &ctx);
+            let pk3 = key2.get_pk();
+            let ell = r.l.clone();
+            let crafted: Vec<BigUint> = vec![ell.clone(), &ell + 1u32, &ell * 2u32, BigUint::from(1u32) << 255, (BigUint::from(1u32) << 256) - 1u32, &ell - 1u32, BigUint::from(0u32)];
+            for val in crafted {
+                let mut le = val.to_bytes_le();
+                le.resize(32, 0);
+                let mut cts = vec![];
+                for half in le.chunks(16) {
+                    let mut pt = [0u8; 30];
+                    pt[..16].copy_from_slice(half);
+                    cts.push(pk3.encrypt(&ctx.encode(&pt).unwrap()));
+                }
+                let blob = cts.strand_serialize().unwrap();
+                let (b2, key3) = (blob.clone(), PrivateKey::from(&sk, &ctx));
+                let out = r.case("dec_x", vec![b(&blob), vx(&sk)], || match ctx.decrypt_exp(&b2, key3) {
+                    Ok(x) => Out::Ok(vx(&x)),
+                    Err(_) => Out::Err,
+                });
+                let want = if val < ell { Out::Ok(n(&val)) } else { Out::Err };
+                r.h.check(out == want, || format!("decrypt_exp of a crafted transport blob whose halves denote {:x} returns {:?} (the group order is {:x}) on R255", val, out, ell));
+            }
+        }
+
 fn c01(r: &mut R) {
     let ctx = r.ctx.clone();
     let zkp = Zkp::new(&ctx);
@@ -298,6 +329,9 @@ fn c01(r: &mut R) {
                 Err(_) => Out::Err,
             });
             r.h.check(out == Out::Ok(vx(&sk)), || "exponent transport round trip fails on R255".to_string());
+        }
+        if i < 2 {
+            crafted_transport(r, &sk);
         }
         // homomorphism
         let m2 = r.re();
@@ -1035,6 +1069,31 @@ fn objects(r: &mut R, k: usize) -> Vec<(&'static str, &'static str, Val, Vec<u8>
 }
 
 fn wire(r: &mut R, prop: &str) {
+    if prop == "C12" {
+        let ctx = r.ctx.clone();
+        let key = PrivateKey::from(&ctx.rnd_exp(), &ctx);
+        let c = key.get_pk().encrypt(&ctx.rnd());
+        let zkp = Zkp::new(&ctx);
+        let sp = zkp.schnorr_prove(&ctx.rnd_exp(), &ctx.rnd(), None, b"w").unwrap();
+        let (_, cp) = key.decrypt_and_prove(&c, b"w").unwrap();
+        let mut bad: Vec<(&str, usize)> = vec![];
+        let mut chk = |name: &'static str, x: Option<usize>| if let Some(k) = x { bad.push((name, k)) };
+        chk("element", crate::p_wire::short_writer_agrees(&ctx.rnd()));
+        chk("exponent", crate::p_wire::short_writer_agrees(&ctx.rnd_exp()));
+        chk("ciphertext", crate::p_wire::short_writer_agrees(&c));
+        chk("public key", crate::p_wire::short_writer_agrees(&key.get_pk()));
+        chk("private key", crate::p_wire::short_writer_agrees(&key));
+        chk("Schnorr proof", crate::p_wire::short_writer_agrees(&sp));
+        chk("Chaum-Pedersen proof", crate::p_wire::short_writer_agrees(&cp));
+        chk("StrandVectorC", crate::p_wire::short_writer_agrees(&StrandVectorC::<C>(vec![c.clone(), c.clone()])));
+        chk("Vec<Ciphertext>", crate::p_wire::short_writer_agrees(&vec![c.clone()]));
+        r.h.check(bad.is_empty(), || format!("serialising into a writer that takes at most k bytes per call (k = 0: a buffer one byte too small) does not give the bytes of try_to_vec / an error for {:?} on R255", bad));
+    }
+    if prop == "C11" {
+        let sk = r.rx();
+        let skx = x_of(&sk);
+        crafted_transport(r, &skx);
+    }
     let quick = r.h.tier == Tier::Quick;
     let ctx = r.ctx.clone();
     if prop == "C11" {
